@@ -23,6 +23,7 @@
 #include <chrono>
 #include <memory>
 #include <map>
+#include <set>
 
 using namespace CDNS;
 
@@ -185,6 +186,24 @@ static GenericQueryResponse mk_rec(unsigned i) {
     return g;
 }
 
+// equal entries in the address / name tables of the blocks of a (decompressed) output, as the library's reader fills them
+static unsigned table_dups(const std::string& plain) {
+    unsigned d = 0;
+    try {
+        std::istringstream is(plain, std::ios::binary);
+        CdnsReader rd(is);
+        bool eof = false;
+        while (true) {
+            CdnsBlockRead b = rd.read_block(eof);
+            if (eof) break;
+            std::set<std::string> ips, names;
+            for (std::size_t i = 0; i < b.m_ip_address.size(); i++) if (!ips.insert(b.m_ip_address[static_cast<index_t>(i)].data).second) d++;
+            for (std::size_t i = 0; i < b.m_name_rdata.size(); i++) if (!names.insert(b.m_name_rdata[static_cast<index_t>(i)].data).second) d++;
+        }
+    } catch (std::exception&) {}
+    return d;
+}
+
 // runs the scenario's API calls in THIS process; logs one line per API call to apilog (fd)
 struct Runner {
     const json& sc;
@@ -295,7 +314,17 @@ struct Runner {
             }
             else if (op == "recover") recover();
             // after a failed block write the documented reaction is the recovery, at once
-            if (block_exc && has_recover && op != "recover") { recover(); break; }
+            if (block_exc && has_recover && op != "recover") {
+                // "rebuffer": before the recovery the application goes on buffering - records whose address and name are those
+                // of the last record it had buffered (values the block that could not be written already holds)
+                for (unsigned i = 0; i < sc.value("rebuffer", 0u) && rec > 0; i++) {
+                    GenericQueryResponse src = mk_rec(rec - 1 - i % 2);
+                    GenericQueryResponse g = mk_rec(rec++);
+                    g.client_ip = src.client_ip; g.query_name = src.query_name;
+                    guarded("rec", [&] { ex->buffer_qr(g); });
+                }
+                recover(); break;
+            }
         }
         guarded("destroy", [&] { wr.reset(); ex.reset(); });
     }
@@ -433,7 +462,7 @@ static json describe_outputs(const std::map<std::string, std::string>& snap, con
                 json rd = vr::reader_dump(plain);
                 json ports = json::array();
                 for (auto& b : rd["blocks"]) for (auto& q : b["qrs"]) ports.push_back(vh::u64_from_nat(q["client_port"]));
-                o["fin"] = rd["fin"]; o["ports"] = ports;
+                o["fin"] = rd["fin"]; o["ports"] = ports; o["dups"] = table_dups(plain);
                 o["nbps"] = rd.contains("preamble") && rd["preamble"].contains("bps") ? rd["preamble"]["bps"].size() : 0;
             } else { o["fin"] = plain.empty() ? "empty" : "nostream"; o["ports"] = json::array(); }
         }
